@@ -18,11 +18,13 @@ import (
 // In-process SIOT instance (embedded NATS server + store) on free ports, for the bus-level properties.
 
 type busServer struct {
-	nc      *nats.Conn // the server's own connection
-	root    data.NodeEdge
-	opts    server.Options
-	stop    func()
-	stopped chan struct{}
+	nc         *nats.Conn // the server's own connection
+	root       data.NodeEdge
+	opts       server.Options
+	stop       func()
+	halt       func() // stop without removing the store file
+	haltWithin func(time.Duration) bool
+	stopped    chan struct{}
 }
 
 func freePort() int {
@@ -32,6 +34,24 @@ func freePort() int {
 	}
 	defer l.Close()
 	return l.Addr().(*net.TCPAddr).Port
+}
+
+// freePorts returns n distinct free ports (all listeners are held until every port has been chosen).
+func freePorts(n int) []int {
+	var ls []net.Listener
+	var ps []int
+	for i := 0; i < n; i++ {
+		l, err := net.Listen("tcp", "127.0.0.1:0")
+		if err != nil {
+			panic(err)
+		}
+		ls = append(ls, l)
+		ps = append(ps, l.Addr().(*net.TCPAddr).Port)
+	}
+	for _, l := range ls {
+		l.Close()
+	}
+	return ps
 }
 
 var busSeq int
@@ -47,13 +67,14 @@ func busStart(id string, token string, clients func(nc *nats.Conn) []client.RunS
 	for _, suf := range []string{"", "-wal", "-shm"} {
 		os.Remove(file + suf)
 	}
-	np := freePort()
+	ports := freePorts(4)
+	np := ports[0]
 	o := server.Options{
 		StoreFile:    file,
 		NatsPort:     np,
-		HTTPPort:     fmt.Sprint(freePort()),
-		NatsHTTPPort: freePort(),
-		NatsWSPort:   freePort(),
+		HTTPPort:     fmt.Sprint(ports[1]),
+		NatsHTTPPort: ports[2],
+		NatsWSPort:   ports[3],
 		NatsServer:   fmt.Sprintf("nats://127.0.0.1:%d", np),
 		AuthToken:    token,
 		ID:           id,
@@ -76,12 +97,24 @@ func busStart(id string, token string, clients func(nc *nats.Conn) []client.RunS
 	err = s.WaitStart(ctx)
 	cancel()
 	b := &busServer{nc: nc, opts: o, stopped: stopped}
-	b.stop = func() {
+	b.halt = func() {
 		s.Stop(nil)
 		select {
 		case <-stopped:
 		case <-time.After(10 * time.Second):
 		}
+	}
+	b.haltWithin = func(d time.Duration) bool {
+		s.Stop(nil)
+		select {
+		case <-stopped:
+			return true
+		case <-time.After(d):
+			return false
+		}
+	}
+	b.stop = func() {
+		b.halt()
 		for _, suf := range []string{"", "-wal", "-shm"} {
 			os.Remove(file + suf)
 		}
